@@ -981,9 +981,53 @@ func (ex *Exec) pureCall(st *State, fc *FuncContract, fn *types.Func, recv *Val,
 		ex.declare(fmt.Sprintf("(declare-fun %s (%s) %s)", name, strings.Join(argSorts, " "), rs.Name))
 		out = append(out, Val{T: app(name, argTerms...), S: rs, GoT: rt})
 	}
-	if !ex.pureAxiomDone[fc.Key] && len(fc.Ensures) > 0 {
-		ex.pureAxiomDone[fc.Key] = true
-		ex.addPureAxiom(fc, fn)
+	if len(fc.Ensures) > 0 {
+		ground := true
+		for _, t := range argTerms {
+			if strings.Contains(t, "q_") {
+				ground = false
+			}
+		}
+		if ground && st != nil {
+			// instantiate the contract for these arguments (keeps queries quantifier-free)
+			key := fc.Key + "(" + strings.Join(argTerms, ",") + ")"
+			if !st.pureInst[key] && ex.pureDepth < 4 {
+				st.pureInst[key] = true
+				ex.pureDepth++
+				env := ex.calleeEnv(st, fc, fn, recv, args)
+				for i, nm := range resultNames(fc, sig) {
+					env.names[nm] = out[i]
+				}
+				var pre []string
+				okPre := true
+				for _, rq := range fc.Requires {
+					t, err := env.elabBool(rq.Expr)
+					if err != nil {
+						ex.fail(token.NoPos, "pure contract %s requires: %v", fc.Key, err)
+						okPre = false
+						break
+					}
+					pre = append(pre, t)
+				}
+				if okPre {
+					for _, en := range fc.Ensures {
+						if en.Canary {
+							continue
+						}
+						t, err := env.elabBool(en.Expr)
+						if err != nil {
+							ex.fail(token.NoPos, "pure contract %s ensures %q: %v", fc.Key, en.Src, err)
+							continue
+						}
+						st.assume(implies(and(pre...), t))
+					}
+				}
+				ex.pureDepth--
+			}
+		} else if !ex.pureAxiomDone[fc.Key] {
+			ex.pureAxiomDone[fc.Key] = true
+			ex.addPureAxiom(fc, fn)
+		}
 	}
 	return out
 }
